@@ -327,6 +327,9 @@ STD_ACCEPTED_SHAPES = [
     ('Clone, Debug, PartialEq', "pub struct X<'a, T>(pub &'a T, pub &'a T);"),
     # an unsized last field that its tokens do not give away
     ('Debug, PartialEq', 'pub struct X(pub u8, pub Sl);'),
+    # `Self` in the where-clause (the hidden `Eq` assertion is a free function: `Self` has to be spelled out there)
+    ('Clone, Debug, Default, PartialEq, Eq, PartialOrd, Ord, Hash', 'pub struct X<T>(pub T, pub u8) where Self: Sized, T: Copy;'),
+    ('Clone, Debug, PartialEq, Eq, Hash', 'pub enum X<T> where Self: ::core::marker::Send { A(T), B { x: u8 } }'),
     ('Debug, PartialEq, Eq, PartialOrd, Ord, Hash', '#[allow(unused_parens)] pub struct X { pub a: u8, pub b: (str) }'),
 ]
 
